@@ -66,6 +66,12 @@ CLAIMED = {
             "Layer 3: every accepted label re-encoded by an independent table-driven reference encoder (plus a 121-label concrete pool).",
             "Bounds: L <= 3 quick / <= 5 thorough over code points 9..126 (layer 1 unbounded); regex membership and table look-ups are solver atoms; "
             "layer 3 is solver-driven enumeration of the accepted labels. One genuine defect fixed ('$' anchor).", "5 (C10)"),
+    "C09": ("Chord rules on fully symbolic encodings with roots jointly transposed by a symbolic k; real pitch_class_to_semitone on symbolic root strings; "
+            "chord.evaluate with symbolic times on a transposed/respelled label pool; key scores over key pairs x 12 transpositions x spellings; log-domain "
+            "frequencies scaled by a symbolic factor (melody, multipitch, transcription), estimate-only octave shifts and negated melody estimates: all "
+            "compared on the same path and discharged by z3.",
+            "Bounds: encodings unbounded (mirex 2 symbolic bits/label), root strings <=4/5 chars, <=2+2 chord intervals, 8x8 key pairs quick / all 49x49 thorough, "
+            "<=2/3 frames, notes <=1x2 / 2x2; scaling keeps 20..5000 Hz; encode_many stubbed to the invariant for the rule lattice.", "5 (C09)"),
 }
 
 NA_REASON = "check not built yet in this revision (planned; see DESIGN.md section 5)"
